@@ -9,6 +9,7 @@ idempotence flag, the initial consistency and the policy.  `run` = one request =
 -/
 import ScyllaVerif.Model.Retry
 import ScyllaVerif.Model.Exec
+import ScyllaVerif.Generated.Constants
 
 namespace ScyllaVerif.Props.C06
 open ScyllaVerif.Retry ScyllaVerif.Exec
@@ -25,6 +26,35 @@ theorem decide_nonidempotent_retry_only_after_proof (pol : Policy) (s : Sess) (e
     simp only [decideRetry, decideDefault, decideDowngrading, decideFallthrough, maxLikelyToWorkCl,
       proofOfNonApplication] at h ⊢
   all_goals (repeat' split at h) <;> simp_all [Decision.isRetry]
+
+/-! ### "serial consistency" is exactly {SERIAL, LOCAL_SERIAL} -/
+
+/-- The protocol code of a consistency, taken from the constants regenerated from `frame/types.rs` on every run. -/
+def clCode : Consistency → Nat
+  | .any => Generated.consistency_Any | .one => Generated.consistency_One | .two => Generated.consistency_Two
+  | .three => Generated.consistency_Three | .quorum => Generated.consistency_Quorum | .all => Generated.consistency_All
+  | .localQuorum => Generated.consistency_LocalQuorum | .eachQuorum => Generated.consistency_EachQuorum
+  | .localOne => Generated.consistency_LocalOne | .serial => Generated.consistency_Serial
+  | .localSerial => Generated.consistency_LocalSerial
+
+/-- The model's `is_serial` is the two-element set {Serial, LocalSerial} — LocalSerial included. -/
+theorem isSerial_iff (c : Consistency) : c.isSerial = true ↔ c = .serial ∨ c = .localSerial := by
+  cases c <;> simp [Consistency.isSerial]
+
+/-- … i.e. exactly the CQL codes 0x0008 (SERIAL) and 0x0009 (LOCAL_SERIAL), stated with the protocol's literals
+(the codes of the variants come from the regenerated constants: a changed discriminant breaks this). -/
+theorem isSerial_iff_code (c : Consistency) : c.isSerial = true ↔ clCode c = 0x0008 ∨ clCode c = 0x0009 := by
+  cases c <;> decide
+
+/-- The source's `Consistency::is_serial` (its `matches!` domain, re-extracted from `frame/types.rs` on every run;
+the extractor fails closed if it is anything but a `matches!` over variants) is {Serial = 8, LocalSerial = 9},
+the same set as the `SerialConsistency` enum, and the model's `isSerial` is membership in it. -/
+theorem source_is_serial_domain :
+    Generated.isSerialVariants = [("Serial", 0x0008), ("LocalSerial", 0x0009)] ∧
+    Generated.isSerialVariants = Generated.serialConsistencies ∧
+    ∀ c : Consistency, c.isSerial = (Generated.isSerialVariants.map (·.2)).contains (clCode c) := by
+  refine ⟨by decide, by decide, fun c => ?_⟩
+  cases c <;> decide
 
 /-- The default policy answers `DontRetry` to everything at serial consistency and leaves its flags alone. -/
 theorem decide_default_serial (s : Sess) (e : Err) (idem : Bool) (cl : Consistency) (h : cl.isSerial = true) :
@@ -451,11 +481,11 @@ def callsOn (as : List Attempt) (tg : Nat) : Nat := (as.filter (fun x => x.targe
 
 private theorem callsOn_cons_take_eq {x : Attempt} {as : List Attempt} {n tg : Nat} (h : x.target = tg) :
     callsOn ((x :: as).take (n + 1)) tg = callsOn (as.take n) tg + 1 := by
-  simp [callsOn, List.take_succ_cons, List.filter_cons, h]
+  simp [callsOn, List.take_succ_cons, h]
 
 private theorem callsOn_cons_take_ne {x : Attempt} {as : List Attempt} {n tg : Nat} (h : x.target ≠ tg) :
     callsOn ((x :: as).take (n + 1)) tg = callsOn (as.take n) tg := by
-  simp [callsOn, List.take_succ_cons, List.filter_cons, h]
+  simp [callsOn, List.take_succ_cons, h]
 
 /-- Attempt `i+1` follows decision `i`: it is a retry decision, the consistency is the one it named (or
 unchanged); after `RetryNextTarget` the target is a later one; after `RetrySameTarget` it is the same target
@@ -812,6 +842,13 @@ theorem ignored_write_only_idempotent (tg : Nat) :
 theorem default_never_retries_serial (h : cl0.isSerial = true) :
     (run .default idem cl0 plan outcomes).attempts.length ≤ 1 :=
   exec_default_serial idem outcomes _ plan 0 (Loc.init cl0) h
+
+/-- … in particular at LOCAL_SERIAL (0x0009) as well as at SERIAL (0x0008). -/
+theorem default_never_retries_local_serial :
+    (run .default idem .localSerial plan outcomes).attempts.length ≤ 1 ∧
+    (run .default idem .serial plan outcomes).attempts.length ≤ 1 :=
+  ⟨default_never_retries_serial idem .localSerial plan outcomes rfl,
+   default_never_retries_serial idem .serial plan outcomes rfl⟩
 
 /-- The fallthrough policy: at most one attempt. -/
 theorem fallthrough_single_attempt :
